@@ -50,7 +50,7 @@ def gen_cases(ctx):
     n = 250 if ctx.tier == "quick" else 4000
     out = []
     for i in range(n):
-        src = prog_gen.program(vlib.rng(ctx.seed, "c10-%d" % i), 3 if i % 4 else 4)
+        src = prog_gen.program(vlib.rng(ctx.seed, "c10-%d" % i), 3)
         out.append(("gen", src, "nostd\t/main.sy\t/main.sy=%s" % vlib.hexs(src)))
     return out + test_programs()
 
